@@ -547,10 +547,27 @@ func (ex *Exec) strSlice(fr *Frame, site ssa.Instruction, s Value, lo, hi ssa.Va
 func ropeParts(v Value) []interface{} {
 	switch x := v.(type) {
 	case *Rope:
-		return x.parts
+		var out []interface{}
+		for _, p := range x.parts {
+			if t, ok := p.(*Term); ok {
+				out = append(out, ropeParts(t)...)
+			} else {
+				out = append(out, p)
+			}
+		}
+		return out
 	case *Term:
 		if s, ok := x.StrVal(); ok && s == "" {
 			return nil
+		}
+		if x.Op == "str.++" {
+			var flat []*Term
+			flattenStr(x, &flat)
+			out := make([]interface{}, len(flat))
+			for i, f := range flat {
+				out[i] = f
+			}
+			return out
 		}
 		return []interface{}{x}
 	case ByteStr:
